@@ -48,6 +48,12 @@ type readOutcome struct {
 
 // readLoop reads messages until the first error, then tries extra more times.
 func readLoop(ctx context.Context, c *websocket.Conn, m readMode, extra int) *readOutcome {
+	return readLoopBetween(ctx, c, m, extra, nil)
+}
+
+// readLoopBetween is readLoop with a callback that runs after every read that returned data without an
+// error (Reader mode) or after every message (Read mode).
+func readLoopBetween(ctx context.Context, c *websocket.Conn, m readMode, extra int, between func()) *readOutcome {
 	o := &readOutcome{}
 	readOne := func() (gotMsg, []byte, bool, error, string) {
 		if m.Kind == "Read" {
@@ -55,6 +61,9 @@ func readLoop(ctx context.Context, c *websocket.Conn, m readMode, extra int) *re
 			if err != nil {
 				// Read does not say whether a message had started: partial data tells
 				return gotMsg{}, b, len(b) > 0, err, "Read"
+			}
+			if between != nil {
+				between()
 			}
 			return gotMsg{Type: byte(typ), Data: b}, nil, false, nil, ""
 		}
@@ -73,6 +82,9 @@ func readLoop(ctx context.Context, c *websocket.Conn, m readMode, extra int) *re
 			if err != nil {
 				o.PartialType = byte(typ)
 				return gotMsg{}, data, true, err, "Read"
+			}
+			if between != nil && n > 0 {
+				between()
 			}
 		}
 	}
